@@ -110,6 +110,18 @@ CHECKS = {
              'watchdog event classes. Domain restrictions are those of the property (format case, format depth).',
         technique='z3 regular-expression emptiness over Python re patterns + CrossHair on the real dispatch',
         design_ref='DESIGN.md section 4 C15'),
+    'C16': dict(
+        level='model_checking',
+        text='CrossHair (per-path z3 queries) on the real handler classes built by the factory: for every pair of notifications (add / modify / '
+             'remove of any of 4 files in 2 channels, duplicates and unknown files included) under each single limit, and for every triple '
+             'under all three limits (12 per-case harnesses), Confirmed over all paths that the bookkeeping equals the truth (records <-> '
+             'queues bijection, per-channel time order, tracked size == sum of tracked sizes), a file is deleted only if it is the oldest '
+             'tracked file of its channel and some limit is exceeded at that moment, removal notifications delete nothing, and every limit '
+             'holds again after a reported file was handled. z3 regex emptiness shows the path filter can never match properties or tmp. files.',
+        note='Trusted: CrossHair/z3, the os stub; records injected directly (time key from the concrete file names, symbolic sizes). Longer '
+             'histories and re-verification after observer restart are outside the claim.',
+        technique='CrossHair symbolic execution of the real ringbuffer classes + z3 regex emptiness',
+        design_ref='DESIGN.md section 4 C16'),
 }
 
 NOT_YET = 'check not built yet in this revision of /verif (planned, see DESIGN.md section 4)'
